@@ -76,6 +76,14 @@ pub fn generate_scenario(property: &str, seed: u64, run: u64, thorough: bool) ->
             _ => {}
         }
     }
+    // operator re-configuration (own sub-stream: scenarios drawn before this fault existed keep
+    // everything else)
+    if !fault_free && matches!(property, "C14" | "C15" | "C16" | "C02" | "C20") {
+        let mut r = Rng::for_run(seed, &format!("scenario-reconfig-{property}"), run);
+        if r.chance(0.3) {
+            f.reconfig = r.log_uniform(0.004, 0.03);
+        }
+    }
     Scenario {
         property: property.to_string(),
         seed,
@@ -92,6 +100,24 @@ pub fn generate_scenario(property: &str, seed: u64, run: u64, thorough: bool) ->
         epochs: rng.range(3, 7),
         faults: f,
     }
+}
+
+/// Other protocol parameters for the operator's configuration file: mostly a small step from the
+/// current ones (quorum stays reachable), sometimes a redraw.
+pub fn reconfigure_event(rng: &mut Rng, w: &World) -> Event {
+    let cur = w.agg.settings.protocol_parameters.clone();
+    let (m, phi_f) = match rng.below(4) {
+        0 => (*rng.pick(&[10u64, 20, 30, 50]), cur.phi_f),
+        1 => (cur.m, *rng.pick(&[0.3, 0.5, 0.65, 0.8, 0.95])),
+        2 => (cur.m, cur.phi_f),
+        _ => (*rng.pick(&[10u64, 20, 30, 50]), *rng.pick(&[0.3, 0.5, 0.65, 0.8, 0.95])),
+    };
+    let expect = (m as f64 * phi_f).max(1.0);
+    let mut k = ((expect * *rng.pick(&[0.3, 0.45, 0.6])).ceil() as u64).clamp(1, m);
+    if k == cur.k && m == cur.m && phi_f == cur.phi_f {
+        k = (k + 1).clamp(1, m);
+    }
+    Event::Reconfigure { k, m, phi_f }
 }
 
 /// The seeded scheduler: looks at the current global state and draws the next event.
@@ -225,8 +251,12 @@ impl Driver {
             choices.push((w100(f.restart), 7));
             choices.push((w100(f.restart) * 2, 8));
         }
+        if f.reconfig > 0.0 {
+            choices.push((w100(f.reconfig), 9));
+        }
         let weights: Vec<u32> = choices.iter().map(|c| c.0.max(1)).collect();
         match choices[rng.weighted(&weights)].1 {
+            9 => reconfigure_event(rng, w),
             0 => Event::Tick,
             1 => Event::Background { polls: 4 },
             2 => {
@@ -338,9 +368,13 @@ impl Driver {
         if f.chain_down > 0.0 {
             choices.push((w100(f.chain_down), 14));
         }
+        if f.reconfig > 0.0 {
+            choices.push((w100(f.reconfig), 15));
+        }
         let weights: Vec<u32> = choices.iter().map(|c| c.0.max(1)).collect();
         let action = choices[rng.weighted(&weights)].1;
         match action {
+            15 => reconfigure_event(rng, w),
             0 => Event::Tick,
             1 => Event::Background { polls: rng.range(1, 8) as u32 },
             2 => {
